@@ -155,8 +155,11 @@ class ResubSim(Sim):
             c = sum(1 for l in v if l["epoch"] == ep)
             if c > 1:
                 self.viol("C13", "rerun-more-than-once", f"{n} was started {c} times by one resubmission")
-        exp_launch = {n for n in closure if model2[n][0] in ("successful", "failed")}
-        maybe = {n for n in closure if model2[n][0] == "either"}
+        exp_launch0 = {n for n in closure if model2[n][0] in ("successful", "failed")}
+        maybe = {n for n in closure if model2[n][0] in ("either", "either_or_missing", "missing_or_canceled")}
+        # anything downstream of an undecided job is undecided as well
+        maybe = model.dependents_closure(self.scen["jobs"], maybe) & closure if maybe else maybe
+        exp_launch = exp_launch0 - maybe
         if not (exp_launch <= relaunched <= exp_launch | maybe):
             self.viol("C13", "rerun-set", f"resubmit-jobs {flags}: started {sorted(relaunched)}, expected (selected {sorted(sel)} + dependents, minus canceled) {sorted(exp_launch)}")
         last = self.obs[-1] if self.obs else None
@@ -189,6 +192,9 @@ class ResubSim(Sim):
             if m == "either":
                 exp_run = "successful" if model2[n][1] == 0 else "failed"
                 ok = got in ("canceled", exp_run) and (got == "canceled") == (n not in relaunched)
+            if n in maybe and m != "either":
+                # undecided by the property: only demand self-consistency (a finished result iff it was started)
+                ok = (got in ("successful", "failed")) == (n in relaunched)
             if not ok:
                 self.viol("C13", "outcome-after-resubmission", f"{n}: {got} after resubmission, expected {m}")
             elif n in closure and m in ("successful", "failed") and after[n][0] != model2[n][1]:
